@@ -526,6 +526,13 @@ def check_sites(ctx, prog, rule, prop, seen, config_label="", exclude_fn=None, o
                         be, bkey = budget.get((o, sk)), (o, sk)
         allowed = be["max"] if be is not None and (not be.get("props") or prop in be["props"]) else 0
         allowed = max(0, allowed - spent.get(bkey, 0))
+        if be is None and und and any(sk.startswith(k) for k in _LIN_KINDS):
+            # a site kind the function did not have before (split_at for an index pair, ...) in a function whose premise
+            # replays it whole: the premise has to prove it
+            prem = [pr for (pr, f_) in COVERED_BY_PREMISE if f_ == fnp]
+            if prem:
+                be = {"max": len(und), "requires": prem[0], "reason": "covered by the premise that replays the whole function"}
+                allowed = len(und)
         if allowed and und and any(sk.startswith(k) for k in COVERED_BY_PREMISE.get((be.get("requires"), fnp), ())):
             allowed = max(allowed, len(und))
         if be is not None:
